@@ -7,12 +7,14 @@
      core_type_safety    WellTyped p -> eval_ready p = true -> main_fits p args = true ->
                          run_program fuel p args <> OStuck, and a result has main's return type
 
-   Side conditions (eval_ready, see TypeSafetyBase.v): (S1) no let/var initialiser is the literal
-   nil (or a block ending in it); (S2) no operand of == / != is the literal nil; (S3) in a run of
-   consecutive function items no function mentions a function that follows it in the run (the
-   typechecker declares the run together, the evaluator binds the names one by one).  Each one
-   excludes programs the model typechecker accepts and the evaluator gets stuck on (Examples at the
-   end of the file).  No axioms. *)
+   Side condition (eval_ready, see TypeSafetyBase.v): (S1) no let/var initialiser is the literal
+   nil (or a block ending in it).  It excludes programs the typechecker accepts although they use
+   one nil cell at two record types (Example stuck_nil_alias at the end of the file: a defect of the
+   language implementation, reproduced on the real compiler).  The two former side conditions --
+   (S2) no nil operand of == / !=, (S3) no forward reference inside a run of adjacent function
+   items -- are gone: the evaluator now has both rules (Examples ex_eq_nil, ex_nil_cmp, ex_mutual,
+   ex_even_odd).
+   No axioms. *)
 From Coq Require Import ZArith NArith List Bool Lia Arith.
 From NV Require Import Src.Syntax Src.Eval Src.EvalLemmas Src.EvalProps Src.Types Src.Typecheck
   Src.TypecheckSpec Src.TypeSafetyBase.
@@ -91,14 +93,58 @@ Proof.
   - now rewrite (assoc_in _ _ _ _ _ _ D HIn).
 Qed.
 
-Lemma assoc_none : forall y sigs, mem y (map fst sigs) = false -> assoc y sigs = None.
+Lemma run_sigs_funcs : forall l, run_sigs l = map (fun f => (fd_name f, fd_cty f)) (run_funcs l).
+Proof. induction l as [|[] l IH]; simpl; auto. now rewrite IH. Qed.
+
+Lemma assoc_funcs_none : forall y fds, assoc y (map (fun f => (fd_name f, fd_cty f)) fds) = None ->
+  forall f, In f fds -> fd_name f <> y.
 Proof.
-  induction sigs as [|[x t] sigs IH]; simpl; intros H; auto.
-  apply orb_false_iff in H. destruct H as [H1 H2]. rewrite H1. auto.
+  induction fds as [|g fds IH]; simpl; intros H f HIn; [contradiction|].
+  destruct (N.eqb_spec y (fd_name g)) as [->|Hn]; [discriminate|].
+  destruct HIn as [<-|HIn]; auto.
 Qed.
 
-Lemma run_names_sigs : forall l, map fst (run_sigs l) = run_names l.
-Proof. induction l as [|[] l IH]; simpl; auto. now rewrite IH. Qed.
+Lemma assoc_funcs_some : forall y t fds, assoc y (map (fun f => (fd_name f, fd_cty f)) fds) = Some t ->
+  exists i f, nth_error fds i = Some f /\ fd_name f = y /\ fd_cty f = t.
+Proof.
+  induction fds as [|g fds IH]; simpl; intros H; [discriminate|].
+  destruct (N.eqb_spec y (fd_name g)) as [->|Hn].
+  - inversion H; subst. exists 0, g. auto.
+  - destruct (IH H) as [i [f [H1 H2]]]. exists (S i), f. auto.
+Qed.
+
+Lemma assoc_none_notin : forall x sigs, assoc x sigs = None -> ~ In x (map fst sigs).
+Proof.
+  induction sigs as [|[y t] sigs IH]; simpl; intros H; [tauto|].
+  destruct (N.eqb_spec x y) as [->|Hn]; [discriminate|]. intros [E|HIn]; [congruence|]. now apply IH.
+Qed.
+
+(* the names declared together are pairwise different *)
+Lemma declare_all_nodup : forall sigs G G1, declare_all sigs G = Ok G1 -> NoDup (map fst sigs).
+Proof.
+  induction sigs as [|[x t] sigs IH]; intros G G1 D; simpl; [constructor|].
+  simpl in D. destruct (declare x (t, KTemp) G) as [G2|] eqn:E; [|discriminate]. simpl in D.
+  constructor; [|eapply IH; eauto].
+  destruct (declare_shape _ _ _ _ E) as [s [G0 ->]].
+  apply assoc_none_notin. eapply declare_all_fresh; eauto. simpl. rewrite N.eqb_refl. reflexivity.
+Qed.
+
+Lemma nodup_names_nth : forall (fds : list fdef) i j f g,
+  NoDup (map fd_name fds) -> nth_error fds i = Some f -> nth_error fds j = Some g ->
+  fd_name g = fd_name f -> i = j.
+Proof.
+  intros fds i j f g ND Hi Hj E.
+  apply (proj1 (NoDup_nth_error (map fd_name fds)) ND).
+  - rewrite map_length. apply nth_error_Some. congruence.
+  - rewrite !nth_error_map, Hi, Hj. simpl. congruence.
+Qed.
+
+Lemma nilish_items_run : forall l, run_rest l <> [] -> nilish_items l = nilish_items (run_rest l).
+Proof.
+  induction l as [|i l IH]; intros H; auto. destruct i; auto.
+  simpl run_rest in *. destruct l as [|j l]; [simpl in H; congruence|].
+  rewrite nilish_items_cons. apply IH. exact H.
+Qed.
 
 Section Safety.
 Variable R : list recdecl.
@@ -161,22 +207,38 @@ Qed.
 Lemma dflt_nonnil : forall t, t <> Types.CNil -> dflt t = t.
 Proof. destruct t; simpl; congruence. Qed.
 
+Definition eq_op (op : binop) : bool := match op with Eq | Ne => true | _ => false end.
+
+(* == / != on two references one of which is nil *)
+Lemma binop_result_ref : forall op c1 c2 st v1 v2 n1 n2,
+  get_cell st c1 = Some v1 -> get_cell st c2 = Some v2 ->
+  ref_is_nil v1 = Some n1 -> ref_is_nil v2 = Some n2 -> n1 || n2 = true -> eq_op op = true ->
+  exists b, binop_result op c1 c2 st = fresh st (Eval.CBool b).
+Proof.
+  intros op c1 c2 st v1 v2 n1 n2 G1 G2 R1 R2 Hn Ho.
+  assert (I1 : get_int st c1 = None) by (unfold get_int; rewrite G1; destruct v1; auto; discriminate).
+  assert (B1 : get_bool st c1 = None) by (unfold get_bool; rewrite G1; destruct v1; auto; discriminate).
+  unfold binop_result. rewrite I1, B1, G1, G2. unfold nil_cmp. rewrite R1, R2, Hn.
+  destruct op; try discriminate; eexists; reflexivity.
+Qed.
+
 Lemma binop_safe : forall S st op c1 c2 ta tb t r st',
-  st_ok S st -> nth_error S c1 = Some (dflt ta) -> nth_error S c2 = Some (dflt tb) ->
+  st_ok S st -> nth_error S c1 = Some (ntgt R ta) -> nth_error S c2 = Some (ntgt R tb) ->
   binop_type op ta tb = Some t -> op <> And -> op <> Or ->
-  (eq_op op = true -> ta <> Types.CNil /\ tb <> Types.CNil) ->
   binop_result op c1 c2 st = (r, st') ->
   good S st t True r st'.
 Proof.
-  intros S st op c1 c2 ta tb t r st' Hs H1 H2 Hbt NA NO Hq Hev.
+  intros S st op c1 c2 ta tb t r st' Hs H1 H2 Hbt NA NO Hev.
   assert (Hcases : (ta = Types.CInt /\ tb = Types.CInt) \/
-                   (eq_op op = true /\ ta = Types.CBool /\ tb = Types.CBool /\ t = Types.CBool)).
+                   (eq_op op = true /\ t = Types.CBool /\
+                    ((ta = Types.CBool /\ tb = Types.CBool) \/
+                     (eq_comparable ta tb = true /\ (ta = Types.CNil \/ tb = Types.CNil))))).
   { destruct op; simpl in Hbt; try congruence;
       try (destruct (is_int ta) eqn:Ea; [|discriminate]; destruct (is_int tb) eqn:Eb; [|discriminate];
            apply is_int_eq in Ea; apply is_int_eq in Eb; auto).
-    all: destruct (Hq eq_refl) as [Na Nb];
-      destruct ta, tb; simpl in Hbt; try discriminate; try congruence; inversion Hbt; auto. }
-  destruct Hcases as [[-> ->]|[Eo [-> [-> ->]]]]; simpl in H1, H2.
+    all: destruct (eq_comparable ta tb) eqn:Ec; [|discriminate]; inversion Hbt; subst;
+      destruct ta, tb; simpl in Ec; try discriminate; auto 10. }
+  destruct Hcases as [[-> ->]|[Eo [-> [[-> ->]|[Ec Hnil]]]]]; simpl in H1, H2.
   - destruct (cell_int _ _ _ _ _ Hs H1) as [z1 E1]. destruct (cell_int _ _ _ _ _ Hs H2) as [z2 E2].
     unfold binop_result in Hev. rewrite E1, E2 in Hev.
     destruct (int_binop op z1 z2) as [v|] eqn:Ei.
@@ -189,39 +251,56 @@ Proof.
     apply val_bool in V1. apply val_bool in V2. destruct V1 as [b1 ->]. destruct V2 as [b2 ->].
     unfold binop_result, get_int, get_bool in Hev. rewrite G1, G2 in Hev.
     destruct op; simpl in Eo; try discriminate; eapply good_fresh; eauto; constructor.
+  - (* a reference and nil *)
+    assert (Href : forall c tx, nth_error S c = Some (ntgt R tx) ->
+              tx <> Types.CInt -> tx <> Types.CBool ->
+              exists v n, get_cell st c = Some v /\ ref_is_nil v = Some n /\ (tx = Types.CNil -> n = true)).
+    { intros c tx Hc Ni Nb. destruct tx; try congruence; simpl in Hc.
+      - destruct (cell_ref R genv _ _ _ _ Hs Hc) as [v [n [G Rn]]]; [left; eauto|].
+        exists v, n. repeat split; auto. discriminate.
+      - destruct (cell_ref R genv _ _ _ _ Hs Hc) as [v [n [G Rn]]]; [right; left; eauto|].
+        exists v, n. repeat split; auto. discriminate.
+      - destruct (cell_ref R genv _ _ _ _ Hs Hc) as [v [n [G Rn]]]; [right; right; eauto|].
+        exists v, n. repeat split; auto. discriminate.
+      - exists (Eval.CRec None), true. split; [eapply cell_fresh_rec; eauto|]. auto. }
+    assert (Na : ta <> Types.CInt /\ ta <> Types.CBool /\ tb <> Types.CInt /\ tb <> Types.CBool).
+    { destruct ta, tb; simpl in Ec; try discriminate Ec; destruct Hnil as [E|E]; try discriminate E;
+        repeat split; discriminate. }
+    destruct Na as [Na1 [Na2 [Nb1 Nb2]]].
+    destruct (Href c1 ta H1 Na1 Na2) as [v1 [n1 [G1 [R1 T1]]]].
+    destruct (Href c2 tb H2 Nb1 Nb2) as [v2 [n2 [G2 [R2 T2]]]].
+    assert (Hn : n1 || n2 = true).
+    { destruct Hnil as [E|E]; [rewrite (T1 E)|rewrite (T2 E)]; auto using orb_true_r. }
+    destruct (binop_result_ref op c1 c2 st v1 v2 n1 n2 G1 G2 R1 R2 Hn Eo) as [b Eb].
+    rewrite Eb in Hev. eapply good_fresh; eauto. constructor.
 Qed.
 
 (* ---- the three statements, by fuel ------------------------------------------------------------ *)
 
 Definition eval_safe (k : nat) : Prop :=
-  forall G e t kk t' env st S P r st',
-    HasType R G e (t, kk) -> ready_expr P e = true -> accepts t' t = true ->
-    env_ok S G env P -> st_ok S st ->
+  forall G e t kk t' env st S r st',
+    HasType R G e (t, kk) -> ready_expr e = true -> accepts t' t = true ->
+    env_ok S G env -> st_ok S st ->
     eval genv k env st e = (r, st') ->
     good S st t' (t = Types.CNil -> nilish e = true) r st'.
 
-(* names declared by the run of function items we are in, not yet bound *)
-Definition pend (inrun : bool) (items : list item) : list ident :=
-  if inrun then run_names items else [].
-
-Definition run_declared (G : Types.env) (inrun : bool) (items : list item) : Prop :=
-  inrun = true -> forall x ty, In (x, ty) (run_sigs items) -> Types.lookup x G = Some (ty, KTemp).
-
+(* `inrun` only matters for the typing of a function item; the evaluator takes a whole run of
+   function items in one step, so it never starts in the middle of one *)
 Definition items_safe (k : nat) : Prop :=
-  forall G inrun lastb items t kk t' env st S P lastc r st',
-    ItemsOk R G inrun lastb items (t, kk) -> ready_items P items = true ->
-    run_declared G inrun items ->
-    accepts t' t = true -> env_ok S G env (pend inrun items ++ P) -> st_ok S st ->
+  forall G inrun lastb items t kk t' env st S lastc r st',
+    ItemsOk R G inrun lastb items (t, kk) -> ready_items items = true ->
+    (inrun = true -> run_funcs items = []) ->
+    accepts t' t = true -> env_ok S G env -> st_ok S st ->
     (items = [] -> exists c, lastc = Some c /\ nth_error S c = Some t') ->
     eval_items genv k env st items lastc = (r, st') ->
     good S st t' (t = Types.CNil -> items <> [] -> nilish_items items = true) r st'.
 
 Definition handlers_safe (k : nat) : Prop :=
-  forall G ret cs call env st S P ex r st',
+  forall G ret cs call env st S ex r st',
     CatchesOk R G ret cs -> CallOk R G ret call ->
-    forallb (fun c => ready_items P (snd c)) cs = true ->
-    match call with None => true | Some b => ready_items P b end = true ->
-    env_ok S G env P -> st_ok S st ->
+    forallb (fun c => ready_items (snd c)) cs = true ->
+    match call with None => true | Some b => ready_items b end = true ->
+    env_ok S G env -> st_ok S st ->
     handlers genv k env st ex cs call = (r, st') ->
     good S st (cty_of ret) True r st'.
 
@@ -229,10 +308,10 @@ Definition handlers_safe (k : nat) : Prop :=
 
 Lemma args_safe : forall k, eval_safe k ->
   forall G args targs, HasTypes R G args targs ->
-  forall tgts env st S P ocs r st',
-    forallb (ready_expr P) args = true ->
+  forall tgts env st S ocs r st',
+    forallb ready_expr args = true ->
     Forall2 (fun t' (b : binding) => accepts t' (fst b) = true) tgts targs ->
-    env_ok S G env P -> st_ok S st ->
+    env_ok S G env -> st_ok S st ->
     eval_args genv k env args st = ((ocs, r), st') ->
     exists S', ext S st S' st' /\ st_ok S' st' /\
       match ocs with
@@ -241,19 +320,19 @@ Lemma args_safe : forall k, eval_safe k ->
       end.
 Proof.
   intros k IHe G args targs HT. induction HT as [G|G a l b bs Ha Hl IH];
-    intros tgts env st S P ocs r st' Hr Hacc Henv Hst Hev.
+    intros tgts env st S ocs r st' Hr Hacc Henv Hst Hev.
   - unfold eval_args in Hev. rewrite eval_args_f_nil in Hev. inversion Hev; subst.
     exists S. split; [apply ext_refl|]. split; auto. inversion Hacc; subst. apply Forall2_nil.
   - unfold eval_args in Hev. rewrite eval_args_f_cons in Hev.
     fold (eval_args genv k env l st) in Hev.
     simpl in Hr. split_and. inversion Hacc as [|t1 b1 tgts' bs' Hacc1 Hacc2]; subst.
     destruct (eval_args genv k env l st) as [[ocs1 r1] st1] eqn:El.
-    destruct (IH _ _ _ _ _ _ _ _ H0 Hacc2 Henv Hst El) as [S1 [X1 [Hs1 Hc1]]].
+    destruct (IH _ _ _ _ _ _ _ H0 Hacc2 Henv Hst El) as [S1 [X1 [Hs1 Hc1]]].
     destruct ocs1 as [cs|].
     + destruct (eval genv k env st1 a) as [ra sa] eqn:Ea.
       destruct b as [tb kb]. simpl in Hacc1.
-      assert (Henv1 : env_ok S1 G env P) by (eapply env_ok_ext; eauto).
-      destruct (IHe _ _ _ _ _ _ _ _ _ _ _ Ha H Hacc1 Henv1 Hs1 Ea) as [Ns [S2 [X2 [Hs2 Hc2]]]].
+      assert (Henv1 : env_ok S1 G env) by (eapply env_ok_ext; eauto).
+      destruct (IHe _ _ _ _ _ _ _ _ _ _ Ha H Hacc1 Henv1 Hs1 Ea) as [Ns [S2 [X2 [Hs2 Hc2]]]].
       assert (X : ext S st S2 sa) by (eapply ext_trans; [exact X1|exact X2]).
       destruct ra; inversion Hev; subst; exists S2; (split; [exact X|]); (split; [exact Hs2|]).
       * pose proof (typed_cells_ext _ _ _ _ _ _ X2 Hc1) as Hc1'. unfold typed_cells in *.
@@ -267,23 +346,23 @@ Qed.
 (* ---- calls ------------------------------------------------------------------------------------ *)
 
 Lemma call_safe : forall k, items_safe k -> handlers_safe k ->
-  forall S st fd cenv Gf P cs penv r st',
-  st_ok S st -> env_ok S Gf cenv P -> FunOk' R Gf fd -> ready_fdef P fd = true ->
+  forall S st fd cenv Gf cs penv r st',
+  st_ok S st -> env_ok S Gf cenv -> FunOk' R Gf fd -> ready_fdef fd = true ->
   Forall2 (fun c p => nth_error S c = Some (cty_of (snd p))) cs (fd_params fd) ->
   bind_params (fd_params fd) cs = Some penv ->
   call_body genv k (penv ++ cenv) st fd = (r, st') ->
   good S st (cty_of (fd_ret fd)) True r st'.
 Proof.
-  intros k IHi IHh S st fd cenv Gf P cs penv r st' Hst Henv
+  intros k IHi IHh S st fd cenv Gf cs penv r st' Hst Henv
          [G' [tb [kb [D [HC [HA [HB Hacc]]]]]]] Hr T B Hev.
   rewrite ready_fdef_eq in Hr. split_and.
-  assert (He : env_ok S G' (penv ++ cenv) P) by (eapply params_env_ok; eauto).
+  assert (He : env_ok S G' (penv ++ cenv)) by (eapply params_env_ok; eauto).
   unfold call_body in Hev.
   destruct (eval_items genv k (penv ++ cenv) st (fd_body fd) None) as [rb sb] eqn:Eb.
   assert (Hne : fd_body fd = [] -> exists c, (None : option nat) = Some c /\ nth_error S c = Some (cty_of (fd_ret fd))).
   { intros E. rewrite E in HB. inversion HB. }
-  assert (Gb := IHi _ false _ _ _ _ _ _ _ _ P _ _ _ HB H (fun E => ltac:(discriminate E)) Hacc
-                    (env_ok_push _ _ _ _ _ He) Hst Hne Eb).
+  assert (Gb := IHi _ false _ _ _ _ _ _ _ _ _ _ _ HB H (fun E => ltac:(discriminate E)) Hacc
+                    (env_ok_push _ _ _ _ He) Hst Hne Eb).
   destruct rb.
   - inversion Hev; subst. eapply good_weaken; eauto.
   - destruct Gb as [_ [S1 [X [Hs1 _]]]]. eapply good_trans; [exact X|].
@@ -300,7 +379,7 @@ Lemma apply_safe : forall k, items_safe k -> handlers_safe k ->
 Proof.
   intros k IHi IHh S st cf cs ps rt r st' Hst Hcf T Hev.
   destruct (cell_get _ _ _ _ _ _ Hst Hcf) as [v [Eg V]].
-  apply val_fun in V. destruct V as [fd [cenv [Gf [P [-> [Eps [Ert [He [HF Hr]]]]]]]]].
+  apply val_fun in V. destruct V as [fd [cenv [Gf [-> [Eps [Ert [He [HF Hr]]]]]]]].
   unfold apply_fun in Hev. rewrite Eg in Hev. subst ps rt.
   rewrite map_map in T. apply typed_cells_map in T. simpl in T.
   destruct (bind_params_some (fd_params fd) cs) as [penv B].
@@ -319,24 +398,24 @@ Definition ff (P : Prop) (E : false = true) : P := match Bool.diff_false_true E 
 
 (* a `{ ... }` body evaluated in the environment of the enclosing context *)
 Lemma items_block : forall k, items_safe k ->
-  forall G b th kh t' env st S P r st',
-    ItemsOk R ([] :: G) false None b (th, kh) -> ready_items P b = true ->
-    accepts t' th = true -> env_ok S G env P -> st_ok S st ->
+  forall G b th kh t' env st S r st',
+    ItemsOk R ([] :: G) false None b (th, kh) -> ready_items b = true ->
+    accepts t' th = true -> env_ok S G env -> st_ok S st ->
     eval_items genv k env st b None = (r, st') ->
     good S st t' (th = Types.CNil -> nilish_items b = true) r st'.
 Proof.
-  intros k IHi G b th kh t' env st S P r st' HI Hr Hacc Henv Hst Hev.
+  intros k IHi G b th kh t' env st S r st' HI Hr Hacc Henv Hst Hev.
   assert (Hx : b = [] -> exists c, (None : option nat) = Some c /\ nth_error S c = Some t')
     by (intros E; exfalso; eapply items_none_nonempty; eauto).
   eapply good_weaken;
-    [exact (IHi ([] :: G) false None b th kh t' env st S P None r st'
-                HI Hr (ff _) Hacc (env_ok_push _ _ _ _ _ Henv) Hst Hx Hev)|].
+    [exact (IHi ([] :: G) false None b th kh t' env st S None r st'
+                HI Hr (ff _) Hacc (env_ok_push _ _ _ _ Henv) Hst Hx Hev)|].
   intros Hn E. apply Hn; auto. intros E'. eapply items_none_nonempty; eauto.
 Qed.
 
 Lemma handlers_step : forall k, items_safe k -> handlers_safe k -> handlers_safe (S k).
 Proof.
-  intros k IHi IHh G ret cs call env st S P ex r st' HC HA Hrc Hra Henv Hst Hev.
+  intros k IHi IHh G ret cs call env st S ex r st' HC HA Hrc Hra Henv Hst Hev.
   destruct cs as [|[ex' body] t].
   - rewrite handlers_nil in Hev. destruct call as [b|].
     + inversion HA; subst.
@@ -355,32 +434,26 @@ Qed.
 
 (* ---- items ------------------------------------------------------------------------------------ *)
 
-Lemma eval_items_IFunc' : forall k e st fd t last,
-  eval_items genv (S k) e st (IFunc fd :: t) last =
-  eval_items genv k ((fd_name fd, length (cells st)) :: e)
-             (snd (alloc st (Eval.CFun fd ((fd_name fd, length (cells st)) :: e)))) t
-             (Some (length (cells st))).
-Proof.
-  intros. rewrite eval_items_IFunc. unfold alloc, set_cell. simpl. rewrite list_upd_snoc. reflexivity.
-Qed.
-
 Lemma nilish_items_tail : forall i rest, rest <> [] -> nilish_items (i :: rest) = nilish_items rest.
 Proof. intros i [|j rest] H; [congruence|]. apply nilish_items_cons. Qed.
 
+Lemma not_run : forall (items : list item), false = true -> run_funcs items = [].
+Proof. intros items E. discriminate. Qed.
+
 (* the items after a binding item *)
 Lemma items_rest : forall k, items_safe k ->
-  forall G inrun rest t kk t' env st S P c r st' i,
-    ItemsOk R G inrun None rest (t, kk) -> ready_items P rest = true ->
-    run_declared G inrun rest ->
-    accepts t' t = true -> env_ok S G env (pend inrun rest ++ P) -> st_ok S st ->
+  forall G inrun rest t kk t' env st S c r st' i,
+    ItemsOk R G inrun None rest (t, kk) -> ready_items rest = true ->
+    (inrun = true -> run_funcs rest = []) ->
+    accepts t' t = true -> env_ok S G env -> st_ok S st ->
     eval_items genv k env st rest (Some c) = (r, st') ->
     good S st t' (t = Types.CNil -> i :: rest <> [] -> nilish_items (i :: rest) = true) r st'.
 Proof.
-  intros k IHi G inrun rest t kk t' env st S P c r st' i HI Hr Hrun Hacc Henv Hst Hev.
+  intros k IHi G inrun rest t kk t' env st S c r st' i HI Hr Hrun Hacc Henv Hst Hev.
   assert (Hx : rest = [] -> exists c', Some c = Some c' /\ nth_error S c' = Some t')
     by (intros E; exfalso; eapply items_none_nonempty; eauto).
   eapply good_weaken;
-    [exact (IHi G inrun None rest t kk t' env st S P (Some c) r st' HI Hr Hrun Hacc Henv Hst Hx Hev)|].
+    [exact (IHi G inrun None rest t kk t' env st S (Some c) r st' HI Hr Hrun Hacc Henv Hst Hx Hev)|].
   intros Hn E _.
   assert (Hne : rest <> []) by (intros E'; eapply items_none_nonempty; eauto).
   rewrite nilish_items_tail by exact Hne. apply Hn; auto.
@@ -389,12 +462,68 @@ Qed.
 Ltac pass_nonok Hev Ga :=
   try (inversion Hev; subst; eapply good_pass; [exact Ga|intros; discriminate]).
 
-Lemma not_run : forall G items, run_declared G false items.
-Proof. intros G items E. discriminate. Qed.
+(* the function items of a run are all checked in the context that declares the run *)
+Lemma items_run_inv : forall G l b, ItemsOk R G true None l b ->
+  Forall (FunOk R G false) (run_funcs l) /\ ItemsOk R G true None (run_rest l) b.
+Proof.
+  intros G l. induction l as [|i l IH]; intros b H; [simpl; auto|].
+  destruct i; try (simpl; auto; fail).
+  inversion H; subst.
+  match goal with HD : Ok G = Ok _ |- _ => inversion HD; subst end.
+  match goal with HL : ItemsOk _ _ true None l _ |- _ => destruct (IH _ HL) end.
+  simpl. auto.
+Qed.
+
+(* binding a run of function items: one new cell per function, typed at its signature; the
+   closures are typed in the extended store typing since they see each other's cells *)
+Lemma run_bind_ok : forall S st G G1 env fds,
+  st_ok S st -> env_ok S G env ->
+  declare_all (map (fun f => (fd_name f, fd_cty f)) fds) G = Ok G1 ->
+  Forall (FunOk R G1 false) fds -> Forall (fun f => ready_fdef f = true) fds ->
+  st_ok (S ++ map fd_cty fds) (run_state fds env st) /\
+  ext S st (S ++ map fd_cty fds) (run_state fds env st) /\
+  env_ok (S ++ map fd_cty fds) G1 (run_env fds env st).
+Proof.
+  intros S st G G1 env fds Hst Henv HD HF Hr.
+  set (S' := S ++ map fd_cty fds). set (e' := run_env fds env st).
+  pose proof (proj1 Hst) as HL.
+  assert (ND : NoDup (map fd_name fds)).
+  { pose proof (declare_all_nodup _ _ _ HD) as N. rewrite map_map in N. exact N. }
+  assert (He' : env_ok S' G1 e').
+  { intros y ty ky L. rewrite (declare_all_lookup_gen _ _ _ HD y) in L.
+    destruct (assoc y (map (fun f => (fd_name f, fd_cty f)) fds)) as [t0|] eqn:Ea.
+    - inversion L; subst. destruct (assoc_funcs_some _ _ _ Ea) as [i [f [Hi [Hn Ht]]]].
+      exists (length (cells st) + i). split.
+      + unfold lookup_var, e', run_env. subst y. rewrite (func_env_nth fds _ env i f Hi); [reflexivity|].
+        intros j g Hij Hj E. assert (i = j) by (eapply nodup_names_nth; eauto). lia.
+      + unfold S'. rewrite nth_error_app2 by lia.
+        replace (length (cells st) + i - length S) with i by lia.
+        rewrite nth_error_map, Hi. simpl. congruence.
+    - destruct (Henv y ty ky L) as [c [L1 L2]]. exists c. split.
+      + unfold lookup_var in *. unfold e', run_env. rewrite func_env_other; [exact L1|].
+        apply assoc_funcs_none; auto.
+      + unfold S'. rewrite nth_error_app1; auto. apply nth_error_Some. congruence. }
+  assert (V : forall l, Forall (FunOk R G1 false) l -> Forall (fun f => ready_fdef f = true) l ->
+            (forall f, In f l -> In f fds) ->
+            Forall2 (val_ok S' st) (map (fun f => Eval.CFun f e') l) (map fd_cty l)).
+  { clear HF Hr. induction l as [|f l IH]; intros HF Hr Hin; simpl; constructor.
+    - inversion HF; inversion Hr; subst.
+      apply V_fun with (Gf := [(fd_name f, (fd_cty f, KTemp))] :: G1).
+      + intros y ty ky L. simpl in L. destruct (N.eqb y (fd_name f)) eqn:E.
+        * inversion L; subst. apply N.eqb_eq in E. subst y.
+          apply (He' (fd_name f) (fd_cty f) KTemp). eapply declare_all_in; eauto.
+          apply (in_map (fun f => (fd_name f, fd_cty f))). apply Hin. simpl. auto.
+        * apply (He' _ _ _ L).
+      + apply (FunOk_FunOk' R G1 false f). assumption.
+      + assumption.
+    - inversion HF; inversion Hr; subst. apply IH; auto. intros g Hg. apply Hin. simpl. auto. }
+  destruct (add_cells_ok R genv S st _ _ Hst (V fds HF Hr (fun f H => H))) as [Hs' X'].
+  split; [exact Hs'|]. split; [exact X'|exact He'].
+Qed.
 
 Lemma items_step : forall k, eval_safe k -> items_safe k -> items_safe (S k).
 Proof.
-  intros k IHe IHi G inrun lastb items t kk t' env st S P lastc r st' HI Hr Hrun Hacc Henv Hst Hlast Hev.
+  intros k IHe IHi G inrun lastb items t kk t' env st S lastc r st' HI Hr Hrun Hacc Henv Hst Hlast Hev.
   destruct items as [|i rest].
   - rewrite eval_items_nil in Hev. destruct (Hlast eq_refl) as [c [-> Hc]]. inversion Hev; subst.
     apply good_here; [exact Hst|discriminate|]. intros c' E. inversion E; subst. split; [exact Hc|].
@@ -402,12 +531,11 @@ Proof.
   - rewrite ready_items_cons in Hr. apply andb_true_iff in Hr. destruct Hr as [Hri Hrr].
     inversion HI; subst.
     + (* let *)
-      assert (Henv0 : env_ok S G env P) by (destruct inrun; exact Henv).
       rewrite eval_items_ILet in Hev.
       apply andb_true_iff in Hri. destruct Hri as [Hre Hnn].
       destruct (eval genv k env st e) as [ra sa] eqn:Ea.
       match goal with HT : HasType _ _ e (?t0, _) |- _ =>
-        assert (Ga := IHe _ _ _ _ (dflt t0) _ _ _ _ _ _ HT Hre (accepts_dflt _) Henv0 Hst Ea);
+        assert (Ga := IHe _ _ _ _ (dflt t0) _ _ _ _ _ HT Hre (accepts_dflt _) Henv Hst Ea);
         assert (Nn : good S st (dflt t0) (t0 <> Types.CNil) ra sa)
       end.
       { eapply good_weaken; [exact Ga|]. intros Hn E. apply Hn in E. rewrite E in Hnn. discriminate. }
@@ -415,16 +543,15 @@ Proof.
       destruct Nn as [_ [S1 [X [Hs1 Hc]]]]. destruct (Hc c eq_refl) as [Hc1 Hn].
       rewrite dflt_nonnil in Hc1 by auto.
       eapply good_trans; [exact X|].
-      assert (He1 : env_ok S1 G' ((x, c) :: env) (pend false rest ++ P)).
-      { simpl. eapply env_ok_declare; eauto. eapply env_ok_ext; eauto. }
+      assert (He1 : env_ok S1 G' ((x, c) :: env)).
+      { eapply env_ok_declare; eauto. eapply env_ok_ext; eauto. }
       eapply items_rest; eauto using not_run.
     + (* var *)
-      assert (Henv0 : env_ok S G env P) by (destruct inrun; exact Henv).
       rewrite eval_items_IVar in Hev.
       apply andb_true_iff in Hri. destruct Hri as [Hre Hnn].
       destruct (eval genv k env st e) as [ra sa] eqn:Ea.
       match goal with HT : HasType _ _ e (?t0, _) |- _ =>
-        assert (Ga := IHe _ _ _ _ (dflt t0) _ _ _ _ _ _ HT Hre (accepts_dflt _) Henv0 Hst Ea);
+        assert (Ga := IHe _ _ _ _ (dflt t0) _ _ _ _ _ HT Hre (accepts_dflt _) Henv Hst Ea);
         assert (Nn : good S st (dflt t0) (t0 <> Types.CNil) ra sa)
       end.
       { eapply good_weaken; [exact Ga|]. intros Hn E. apply Hn in E. rewrite E in Hnn. discriminate. }
@@ -432,69 +559,51 @@ Proof.
       destruct Nn as [_ [S1 [X [Hs1 Hc]]]]. destruct (Hc c eq_refl) as [Hc1 Hn].
       rewrite dflt_nonnil in Hc1 by auto.
       eapply good_trans; [exact X|].
-      assert (He1 : env_ok S1 G' ((x, c) :: env) (pend false rest ++ P)).
-      { simpl. eapply env_ok_declare; eauto. eapply env_ok_ext; eauto. }
+      assert (He1 : env_ok S1 G' ((x, c) :: env)).
+      { eapply env_ok_declare; eauto. eapply env_ok_ext; eauto. }
       eapply items_rest; eauto using not_run.
-    + (* func: the run is declared in G1; env binds everything but the run's names *)
-      rewrite eval_items_IFunc' in Hev.
-      assert (HH : (forall x ty, In (x, ty) (run_sigs (IFunc fd :: rest)) ->
-                                 Types.lookup x G1 = Some (ty, KTemp)) /\
-                   env_ok S G1 env (run_names (IFunc fd :: rest) ++ P)).
-      { match goal with HD : _ = Ok G1 |- _ => destruct inrun; [inversion HD; subst G1|] end.
-        - split; [exact (Hrun eq_refl)|exact Henv].
-        - match goal with HD : declare_all _ G = Ok G1 |- _ => rename HD into HD' end.
-          split; [intros x ty HIn; eapply declare_all_in; eauto|].
-          intros y ty ky L M. rewrite (declare_all_lookup_gen _ _ _ HD' y) in L.
-          rewrite mem_app in M. apply orb_false_iff in M. destruct M as [M1 M2].
-          rewrite assoc_none in L by (rewrite run_names_sigs; exact M1).
-          exact (Henv y ty ky L M2). }
-      destruct HH as [HG1 Henv1].
-      assert (Hname : Types.lookup (fd_name fd) G1 = Some (fd_cty fd, KTemp)).
-      { apply HG1. simpl. left. reflexivity. }
-      set (c := length (cells st)) in *. set (e' := (fd_name fd, c) :: env) in *.
-      set (S' := S ++ [fd_cty fd]).
-      assert (X : ext S st S' st) by (apply ext_snoc; reflexivity).
-      assert (Hc : nth_error S' c = Some (fd_cty fd)).
-      { unfold c, S'. rewrite <- (proj1 Hst). apply nth_error_snoc_new. }
-      assert (He1 : env_ok S' G1 e' (run_names rest ++ P)).
-      { intros y ty ky L M. unfold e'. rewrite lookup_var_cons.
-        destruct (N.eqb y (fd_name fd)) eqn:E.
-        - apply N.eqb_eq in E. subst y. rewrite Hname in L. inversion L; subst.
-          exists c. split; [reflexivity|exact Hc].
-        - destruct (Henv1 y ty ky L) as [c' [L1 L2]].
-          { simpl. rewrite E. exact M. }
-          exists c'. split; [exact L1|apply (proj1 X); exact L2]. }
-      assert (He2 : env_ok S' ([(fd_name fd, (fd_cty fd, KTemp))] :: G1) e' (run_names rest ++ P)).
-      { intros y ty ky L M. simpl in L. destruct (N.eqb y (fd_name fd)) eqn:E.
-        - inversion L; subst. exists c. split; [unfold e'; rewrite lookup_var_cons, E; reflexivity|exact Hc].
-        - apply (He1 y ty ky L M). }
-      assert (V : val_ok S' st (Eval.CFun fd e') (fd_cty fd)).
-      { apply V_fun with (Gf := [(fd_name fd, (fd_cty fd, KTemp))] :: G1) (P := run_names rest ++ P);
-          [exact He2|apply (FunOk_FunOk' R G1 false fd); assumption|exact Hri]. }
-      destruct (alloc_ok R genv S st (Eval.CFun fd e') (fd_cty fd) Hst V) as [Hs' [X' Hc']].
+    + (* a run of function items: declared together in G1, bound together *)
+      assert (Ein : inrun = false).
+      { destruct inrun; auto. specialize (Hrun eq_refl). discriminate. }
+      subst inrun.
+      match goal with HD : declare_all _ G = Ok G1 |- _ => rename HD into HD' end.
+      rewrite eval_items_IFunc in Hev.
+      match goal with HL : ItemsOk _ G1 true None rest _ |- _ =>
+        destruct (items_run_inv _ _ _ HL) as [HFs HIr] end.
+      destruct (ready_items_run _ Hrr) as [Hrfs Hrrest].
+      rewrite run_sigs_funcs in HD'. change (run_funcs (IFunc fd :: rest)) with (fd :: run_funcs rest) in HD'.
+      destruct (run_bind_ok S st G G1 env (fd :: run_funcs rest) Hst Henv HD')
+        as [Hs' [X' He']]; [constructor; assumption|constructor; assumption|].
       eapply good_trans; [exact X'|].
-      assert (Hrun' : run_declared G1 true rest).
-      { intros _ x ty HIn. apply HG1. simpl. right. exact HIn. }
-      eapply items_rest; eauto.
+      assert (Hne : run_rest rest <> []) by (intros E'; eapply items_none_nonempty; eauto).
+      match type of Hev with eval_items _ _ _ _ _ (Some ?cl) = _ =>
+        assert (Hx : run_rest rest = [] -> exists c', Some cl = Some c' /\
+                       nth_error (S ++ map fd_cty (fd :: run_funcs rest)) c' = Some t')
+          by (intros E; congruence);
+        eapply good_weaken;
+          [exact (IHi G1 true None (run_rest rest) t kk t' _ _ _ (Some cl) r st'
+                      HIr Hrrest (fun _ => run_funcs_rest rest) Hacc He' Hs' Hx Hev)|]
+      end.
+      intros Hn E _. rewrite (nilish_items_run (IFunc fd :: rest)) by exact Hne.
+      apply Hn; auto.
     + (* expr *)
-      assert (Henv0 : env_ok S G env P) by (destruct inrun; exact Henv).
       rewrite eval_items_IExpr in Hev. destruct b' as [tb' kb'].
       destruct (eval genv k env st e) as [ra sa] eqn:Ea.
       destruct rest as [|j rest'].
       * match goal with HL : ItemsOk _ _ _ _ [] _ |- _ => inversion HL; subst end.
         match goal with HT : HasType _ _ e _ |- _ =>
-          assert (Ga := IHe _ _ _ _ t' _ _ _ _ _ _ HT Hri Hacc Henv0 Hst Ea) end.
+          assert (Ga := IHe _ _ _ _ t' _ _ _ _ _ HT Hri Hacc Henv Hst Ea) end.
         destruct ra; pass_nonok Hev Ga.
         destruct Ga as [_ [S1 [X [Hs1 Hc]]]]. destruct (Hc c eq_refl) as [Hc1 Hn].
         eapply good_trans; [exact X|].
         assert (Hx : @nil item = [] -> exists c', Some c = Some c' /\ nth_error S1 c' = Some t') by eauto.
         eapply good_weaken;
-          [exact (IHi G false (Some (t, kk)) [] t kk t' env sa S1 P (Some c) r st'
-                      (I_end R G false (t, kk)) eq_refl (not_run _ _) Hacc
-                      (env_ok_ext _ _ _ _ _ _ _ _ X Henv0) Hs1 Hx Hev)|].
+          [exact (IHi G false (Some (t, kk)) [] t kk t' env sa S1 (Some c) r st'
+                      (I_end R G false (t, kk)) eq_refl (not_run _) Hacc
+                      (env_ok_ext _ _ _ _ _ _ _ X Henv) Hs1 Hx Hev)|].
         intros _ E _. rewrite nilish_items_one. auto.
       * match goal with HT : HasType _ _ e _ |- _ =>
-          assert (Ga := IHe _ _ _ _ (dflt tb') _ _ _ _ _ _ HT Hri (accepts_dflt _) Henv0 Hst Ea) end.
+          assert (Ga := IHe _ _ _ _ (dflt tb') _ _ _ _ _ HT Hri (accepts_dflt _) Henv Hst Ea) end.
         destruct ra; pass_nonok Hev Ga.
         destruct Ga as [_ [S1 [X [Hs1 Hc]]]].
         eapply good_trans; [exact X|].
@@ -502,8 +611,8 @@ Proof.
           by discriminate.
         match goal with HL : ItemsOk _ _ _ _ (j :: rest') _ |- _ =>
         eapply good_weaken;
-          [exact (IHi G false (Some (tb', kb')) (j :: rest') t kk t' env sa S1 P (Some c) r st'
-                      HL Hrr (not_run _ _) Hacc (env_ok_ext _ _ _ _ _ _ _ _ X Henv0) Hs1 Hx Hev)|] end.
+          [exact (IHi G false (Some (tb', kb')) (j :: rest') t kk t' env sa S1 (Some c) r st'
+                      HL Hrr (not_run _) Hacc (env_ok_ext _ _ _ _ _ _ _ X Henv) Hs1 Hx Hev)|] end.
         intros Hn' E _. rewrite nilish_items_cons. apply Hn'; auto. discriminate.
 Qed.
 
@@ -535,21 +644,21 @@ Ltac sub IHe a tgt Hacc' c S1 X Hs1 Hc1 Hn1 :=
   let ra := fresh "ra" in let sa := fresh "sa" in let Ea := fresh "Ea" in
   let Ga := fresh "Ga" in let Hc := fresh "Hc" in
   match goal with
-  | Hev : context [eval ?genv ?k ?env ?st a], HT : HasType _ _ a _, Hra : ready_expr _ a = true,
-    Henv : TypeSafetyBase.env_ok _ ?S _ ?env _, Hst : TypeSafetyBase.st_ok _ _ ?S ?st |- _ =>
+  | Hev : context [eval ?genv ?k ?env ?st a], HT : HasType _ _ a _, Hra : ready_expr a = true,
+    Henv : TypeSafetyBase.env_ok _ ?S _ ?env, Hst : TypeSafetyBase.st_ok _ _ ?S ?st |- _ =>
     destruct (eval genv k env st a) as [ra sa] eqn:Ea;
-    assert (Ga := IHe _ _ _ _ tgt _ _ _ _ _ _ HT Hra Hacc' Henv Hst Ea);
+    assert (Ga := IHe _ _ _ _ tgt _ _ _ _ _ HT Hra Hacc' Henv Hst Ea);
     destruct ra as [c| | |]; pass_nonok Hev Ga;
     destruct Ga as [_ [S1 [X [Hs1 Hc]]]]; destruct (Hc c eq_refl) as [Hc1 Hn1]; clear Hc;
     (eapply good_trans; [exact X|]);
-    pose proof (env_ok_ext _ _ _ _ _ _ _ _ X Henv)
+    pose proof (env_ok_ext _ _ _ _ _ _ _ X Henv)
   end.
 
 Ltac tgt_is Hacc t' := apply accepts_nonnil in Hacc; [subst t'|try discriminate].
 
 Lemma eval_step : forall k, eval_safe k -> items_safe k -> handlers_safe k -> eval_safe (S k).
 Proof.
-  intros k IHe IHi IHh G e t kk t' env st S P r st' HT Hr Hacc Henv Hst Hev.
+  intros k IHe IHi IHh G e t kk t' env st S r st' HT Hr Hacc Henv Hst Hev.
   pose proof Hr as Hr0.
   destruct e as [z|b|x|a|a|a|op a b|c a b|c a|lhs rhs|f args|items|c body|body c
                  |init cond incr body|fd|es ety|a i|rn args|rn|a rn fld|a];
@@ -559,8 +668,7 @@ Proof.
   - (* bool *) rewrite eval_EBool in Hev. tgt_is Hacc t'.
     refine (good_fresh _ _ _ _ _ _ _ Hst _ _ Hev); [constructor|intros; discriminate].
   - (* var *) rewrite eval_EVar in Hev.
-    simpl in Hr. apply negb_true_iff in Hr.
-    match goal with L : Types.lookup x G = Some _ |- _ => destruct (Henv _ _ _ L Hr) as [c [Lc Hc]] end.
+    match goal with L : Types.lookup x G = Some _ |- _ => destruct (Henv _ _ _ L) as [c [Lc Hc]] end.
     rewrite Lc in Hev. inversion Hev; subst.
     assert (Nn : t <> Types.CNil) by (eapply cell_nonnil; eauto).
     apply accepts_nonnil in Hacc; auto; subst t'.
@@ -605,14 +713,11 @@ Proof.
         destruct (cell_bool _ _ _ _ _ Hs2 Hc2) as [b2 Ez2]. rewrite Ez2 in Hev.
         refine (good_fresh _ _ _ _ _ _ _ Hs2 _ _ Hev); [constructor|intros; discriminate].
     + rewrite eval_EBin in Hev by auto.
-      sub IHe a (dflt ta) (accepts_dflt ta) c1 S1 X1 Hs1 Hc1 Hn1.
-      sub IHe b (dflt tb) (accepts_dflt tb) c2 S2 X2 Hs2 Hc2 Hn2.
+      sub IHe a (ntgt R ta) (accepts_ntgt R ta) c1 S1 X1 Hs1 Hc1 Hn1.
+      sub IHe b (ntgt R tb) (accepts_ntgt R tb) c2 S2 X2 Hs2 Hc2 Hn2.
       eapply good_weaken;
-        [eapply (binop_safe S2 sa0 op c1 c2 ta tb t r st' Hs2 (proj1 X2 _ _ Hc1) Hc2 Hbt NA NO); [|exact Hev]|].
-      * intros Eo. match goal with Hq : negb (eq_op op) || _ = true |- _ => rewrite Eo in Hq; simpl in Hq end.
-        split_and. split; intros E; [apply Hn1 in E|apply Hn2 in E];
-          match goal with Hq : negb ?x = true |- _ => rewrite E in Hq; discriminate end.
-      * intros _ E. congruence.
+        [exact (binop_safe S2 sa0 op c1 c2 ta tb t r st' Hs2 (proj1 X2 _ _ Hc1) Hc2 Hbt NA NO Hev)|].
+      intros _ E. congruence.
   - (* cond *)
     simpl in Hr. split_and. rewrite eval_ECond in Hev.
     match goal with Hm : merge _ _ = true |- _ => destruct (merge_inv _ _ Hm) as [Nn ->] end.
@@ -643,13 +748,13 @@ Proof.
     simpl in Hr. split_and. rewrite eval_ECall in Hev.
     destruct (eval_args genv k env args st) as [[ocs r1] s1] eqn:Eargs.
     match goal with HTs : HasTypes _ _ args ?targs, Ha : args_ok true ?ps ?targs = true,
-                    Hra : forallb (ready_expr _) args = true |- _ =>
-      destruct (args_safe k IHe _ _ _ HTs (map snd ps) _ _ _ _ _ _ _ Hra
+                    Hra : forallb ready_expr args = true |- _ =>
+      destruct (args_safe k IHe _ _ _ HTs (map snd ps) _ _ _ _ _ _ Hra
                           (args_ok_accepts _ _ _ Ha) Henv Hst Eargs) as [S1 [X1 [Hs1 Hcs]]] end.
     destruct ocs as [cs|].
     2:{ inversion Hev; subst. destruct Hcs as [N1 N2]. eapply good_step; eauto.
         intros c E. exfalso. eapply N2; eauto. }
-    eapply good_trans; [exact X1|]. pose proof (env_ok_ext _ _ _ _ _ _ _ _ X1 Henv) as Henv1.
+    eapply good_trans; [exact X1|]. pose proof (env_ok_ext _ _ _ _ _ _ _ X1 Henv) as Henv1.
     match goal with HF : HasType _ _ f (Types.CFun ?ps ?rt, _) |- _ =>
       sub IHe f (Types.CFun ps rt) (accepts_refl (Types.CFun ps rt) ltac:(discriminate)) cf S2 X2 Hs2 Hc2 Hn2 end.
     pose proof (typed_cells_ext _ _ _ _ _ _ X2 Hcs) as Hcs2.
@@ -683,21 +788,21 @@ Proof.
     { eapply T_While; [eassumption|]. apply T_Block.
       eapply I_expr; [apply HasType_push; eassumption|].
       eapply I_expr; [apply HasType_push; eassumption|]. apply I_end. }
-    assert (HRW : ready_expr P (EWhile cond (EBlock [IExpr body; IExpr incr])) = true).
-    { simpl. repeat match goal with Hq : ready_expr _ _ = true |- _ => rewrite Hq; clear Hq end. reflexivity. }
-    eapply good_weaken; [eapply (IHe _ _ _ _ Types.CInt _ _ _ _ _ _ HW HRW); eauto|]. intros; discriminate.
+    assert (HRW : ready_expr (EWhile cond (EBlock [IExpr body; IExpr incr])) = true).
+    { simpl. repeat match goal with Hq : ready_expr _ = true |- _ => rewrite Hq; clear Hq end. reflexivity. }
+    eapply good_weaken; [eapply (IHe _ _ _ _ Types.CInt _ _ _ _ _ HW HRW); eauto|]. intros; discriminate.
   - (* lambda *)
     simpl in Hr. rewrite eval_ELambda in Hev.
     apply accepts_nonnil in Hacc; [subst t'|unfold fd_cty, sig_cty; discriminate].
     refine (good_fresh _ _ _ _ _ _ _ Hst _ _ Hev).
-    + apply V_fun with (Gf := [] :: G) (P := P);
+    + apply V_fun with (Gf := [] :: G);
         [apply env_ok_push; exact Henv|apply (FunOk_FunOk' R G true fd); assumption|exact Hr].
     + unfold fd_cty, sig_cty; intros; discriminate.
   - (* array literal *)
     simpl in Hr. rewrite eval_EArrLit in Hev. tgt_is Hacc t'.
     destruct (eval_args genv k env es st) as [[ocs r1] s1] eqn:Eargs.
     match goal with HTs : HasTypes _ _ es ?tes, Ha : check_elems ety ?tes = true |- _ =>
-      destruct (args_safe k IHe _ _ _ HTs (map (fun _ => cty_of ety) tes) _ _ _ _ _ _ _ Hr
+      destruct (args_safe k IHe _ _ _ HTs (map (fun _ => cty_of ety) tes) _ _ _ _ _ _ Hr
                           (check_elems_accepts _ _ Ha) Henv Hst Eargs) as [S1 [X1 [Hs1 Hcs]]] end.
     destruct ocs as [cs|].
     2:{ inversion Hev; subst. destruct Hcs as [N1 N2]. eapply good_step; eauto.
@@ -737,7 +842,7 @@ Proof.
     destruct (eval_args genv k env args st) as [[ocs r1] s1] eqn:Eargs.
     match goal with HTs : HasTypes _ _ args ?targs, Ha : args_ok false _ ?targs = true |- _ =>
       pose proof (args_ok_accepts _ _ _ Ha) as Hacs; rewrite map_map in Hacs; simpl in Hacs;
-      destruct (args_safe k IHe _ _ _ HTs _ _ _ _ _ _ _ _ Hr Hacs Henv Hst Eargs) as [S1 [X1 [Hs1 Hcs]]] end.
+      destruct (args_safe k IHe _ _ _ HTs _ _ _ _ _ _ _ Hr Hacs Henv Hst Eargs) as [S1 [X1 [Hs1 Hcs]]] end.
     destruct ocs as [cs|].
     2:{ inversion Hev; subst. destruct Hcs as [N1 N2]. eapply good_step; eauto.
         intros c E. exfalso. eapply N2; eauto. }
@@ -778,12 +883,12 @@ Theorem safe_all : forall k, eval_safe k /\ items_safe k /\ handlers_safe k.
 Proof.
   induction k as [|k [IHe [IHi IHh]]].
   - split; [|split].
-    + intros G e t kk t' env st S P r st' HT Hr Hacc Henv Hst Hev. rewrite eval_O in Hev.
+    + intros G e t kk t' env st S r st' HT Hr Hacc Henv Hst Hev. rewrite eval_O in Hev.
       inversion Hev; subst. apply good_here; [exact Hst|discriminate|intros; discriminate].
-    + intros G inrun lastb items t kk t' env st S P lastc r st' HI Hr Hrun Hacc Henv Hst Hlast Hev.
+    + intros G inrun lastb items t kk t' env st S lastc r st' HI Hr Hrun Hacc Henv Hst Hlast Hev.
       rewrite eval_items_O in Hev.
       inversion Hev; subst. apply good_here; [exact Hst|discriminate|intros; discriminate].
-    + intros G ret cs call env st S P ex r st' HC HA Hrc Hra Henv Hst Hev. rewrite handlers_O in Hev.
+    + intros G ret cs call env st S ex r st' HC HA Hrc Hra Henv Hst Hev. rewrite handlers_O in Hev.
       inversion Hev; subst. apply good_here; [exact Hst|discriminate|intros; discriminate].
   - split; [|split]; [apply eval_step|apply items_step|apply handlers_step]; auto.
 Qed.
@@ -794,25 +899,24 @@ End Safety.
 
    S is the store typing (cell index -> type).  `accepts t' t` lets the consumer of a nil literal
    choose the record type the fresh nil cell is typed at (t' = t for every other expression,
-   see eval_type_safe_nonnil).  P = names the context declares but the environment does not bind
-   yet (later functions of a run of function items); the expression must not mention them. *)
-Theorem eval_type_safe : forall R genv fuel G e t k t' env st S P r st',
-  HasType R G e (t, k) -> ready_expr P e = true -> accepts t' t = true ->
-  env_ok genv S G env P -> st_ok R genv S st ->
+   see eval_type_safe_nonnil). *)
+Theorem eval_type_safe : forall R genv fuel G e t k t' env st S r st',
+  HasType R G e (t, k) -> ready_expr e = true -> accepts t' t = true ->
+  env_ok genv S G env -> st_ok R genv S st ->
   eval genv fuel env st e = (r, st') ->
   r <> RStuck /\
   exists S', ext S st S' st' /\ st_ok R genv S' st' /\
              forall c, r = ROk c -> nth_error S' c = Some t'.
 Proof.
-  intros R genv fuel G e t k t' env st S P r st' HT Hr Hacc Henv Hst Hev.
-  destruct (proj1 (safe_all R genv fuel) _ _ _ _ _ _ _ _ _ _ _ HT Hr Hacc Henv Hst Hev)
+  intros R genv fuel G e t k t' env st S r st' HT Hr Hacc Henv Hst Hev.
+  destruct (proj1 (safe_all R genv fuel) _ _ _ _ _ _ _ _ _ _ HT Hr Hacc Henv Hst Hev)
     as [N [S' [X [Hs Hc]]]].
   split; auto. exists S'. split; [|split]; auto. intros c E. apply (Hc c E).
 Qed.
 
-Theorem eval_type_safe_nonnil : forall R genv fuel G e t k env st S P r st',
-  HasType R G e (t, k) -> ready_expr P e = true -> t <> Types.CNil ->
-  env_ok genv S G env P -> st_ok R genv S st ->
+Theorem eval_type_safe_nonnil : forall R genv fuel G e t k env st S r st',
+  HasType R G e (t, k) -> ready_expr e = true -> t <> Types.CNil ->
+  env_ok genv S G env -> st_ok R genv S st ->
   eval genv fuel env st e = (r, st') ->
   r <> RStuck /\
   exists S', ext S st S' st' /\ st_ok R genv S' st' /\
@@ -821,32 +925,32 @@ Proof.
   intros. eapply eval_type_safe; eauto. apply accepts_refl; auto.
 Qed.
 
-Theorem eval_items_type_safe : forall R genv fuel G items t k t' env st S P r st',
-  ItemsOk R ([] :: G) false None items (t, k) -> ready_items P items = true -> accepts t' t = true ->
-  env_ok genv S G env P -> st_ok R genv S st ->
+Theorem eval_items_type_safe : forall R genv fuel G items t k t' env st S r st',
+  ItemsOk R ([] :: G) false None items (t, k) -> ready_items items = true -> accepts t' t = true ->
+  env_ok genv S G env -> st_ok R genv S st ->
   eval_items genv fuel env st items None = (r, st') ->
   r <> RStuck /\
   exists S', ext S st S' st' /\ st_ok R genv S' st' /\
              forall c, r = ROk c -> nth_error S' c = Some t'.
 Proof.
-  intros R genv fuel G items t k t' env st S P r st' HI Hr Hacc Henv Hst Hev.
+  intros R genv fuel G items t k t' env st S r st' HI Hr Hacc Henv Hst Hev.
   destruct (items_block R genv fuel (proj1 (proj2 (safe_all R genv fuel)))
-              _ _ _ _ _ _ _ _ _ _ _ HI Hr Hacc Henv Hst Hev) as [N [S' [X [Hs Hc]]]].
+              _ _ _ _ _ _ _ _ _ _ HI Hr Hacc Henv Hst Hev) as [N [S' [X [Hs Hc]]]].
   split; auto. exists S'. split; [|split]; auto. intros c E. apply (Hc c E).
 Qed.
 
-Theorem handlers_type_safe : forall R genv fuel G ret cs call env st S P ex r st',
+Theorem handlers_type_safe : forall R genv fuel G ret cs call env st S ex r st',
   CatchesOk R G ret cs -> CallOk R G ret call ->
-  forallb (fun c => ready_items P (snd c)) cs = true ->
-  match call with None => true | Some b => ready_items P b end = true ->
-  env_ok genv S G env P -> st_ok R genv S st ->
+  forallb (fun c => ready_items (snd c)) cs = true ->
+  match call with None => true | Some b => ready_items b end = true ->
+  env_ok genv S G env -> st_ok R genv S st ->
   handlers genv fuel env st ex cs call = (r, st') ->
   r <> RStuck /\
   exists S', ext S st S' st' /\ st_ok R genv S' st' /\
              forall c, r = ROk c -> nth_error S' c = Some (cty_of ret).
 Proof.
-  intros R genv fuel G ret cs call env st S P ex r st' HC HA H1 H2 Henv Hst Hev.
-  destruct (proj2 (proj2 (safe_all R genv fuel)) _ _ _ _ _ _ _ _ _ _ _ HC HA H1 H2 Henv Hst Hev)
+  intros R genv fuel G ret cs call env st S ex r st' HC HA H1 H2 Henv Hst Hev.
+  destruct (proj2 (proj2 (safe_all R genv fuel)) _ _ _ _ _ _ _ _ _ _ HC HA H1 H2 Henv Hst Hev)
     as [N [S' [X [Hs Hc]]]].
   split; auto. exists S'. split; [|split]; auto. intros c E. apply (Hc c E).
 Qed.
@@ -924,10 +1028,10 @@ Let genv := global_env (p_funcs p) 0.
 Let S0 : styping := map fd_cty (p_funcs p).
 
 Lemma global_ctx : exists G, declare_all (top_sigs (p_funcs p)) [[]] = Ok G /\ FunsOk R G (p_funcs p) /\
-  env_ok genv S0 G [] [].
+  env_ok genv S0 G [].
 Proof.
   destruct HWT as [_ [G [D HF]]]. exists G. split; auto. split; auto.
-  intros x t k L _. rewrite (declare_all_lookup _ _ _ _ D x) in L.
+  intros x t k L. rewrite (declare_all_lookup _ _ _ _ D x) in L.
   destruct (assoc x (top_sigs (p_funcs p))) as [t0|] eqn:Ea; [|simpl in L; discriminate].
   inversion L; subst. destruct (global_env_assoc _ 0 _ _ Ea) as [c [Lc [_ Hn]]].
   rewrite Nat.sub_0_r in Hn. exists c. split; auto.
@@ -945,12 +1049,12 @@ Proof.
     rewrite nth_error_map in Hc, Ht.
     destruct (nth_error (p_funcs p) c) as [fd|] eqn:En; simpl in Hc, Ht; [|discriminate].
     inversion Hc; inversion Ht; subst. apply nth_error_In in En.
-    apply V_fun with (Gf := [(fd_name fd, (fd_cty fd, KTemp))] :: G) (P := []).
-    + intros x t k L M. simpl in L. destruct (N.eqb x (fd_name fd)) eqn:E.
+    apply V_fun with (Gf := [(fd_name fd, (fd_cty fd, KTemp))] :: G).
+    + intros x t k L. simpl in L. destruct (N.eqb x (fd_name fd)) eqn:E.
       * inversion L; subst. apply N.eqb_eq in E. subst x.
         destruct (global_env_assoc _ 0 _ _ (assoc_top_sigs _ _ _ _ _ D En)) as [c' [Lc [_ Hn]]].
         rewrite Nat.sub_0_r in Hn. exists c'. split; auto.
-      * apply (He x t k L M).
+      * apply (He x t k L).
     + apply (FunOk_FunOk' R G false fd). eapply FunsOk_In; eauto.
     + unfold eval_ready in HR. rewrite forallb_forall in HR. auto.
 Qed.
@@ -1009,7 +1113,7 @@ Proof.
   { apply (proj1 X1). unfold S0. rewrite nth_error_map, Hn. reflexivity. }
   destruct Hs1 as [HL1 HV1]. pose proof (HV1 _ _ _ Hcm Hcm1) as V.
   assert (Hs1 : st_ok R genv S1 st1) by (split; auto).
-  apply val_fun in V. destruct V as [fd' [cenv [Gf [P [Efd [_ [_ [He [HF Hrf]]]]]]]]].
+  apply val_fun in V. destruct V as [fd' [cenv [Gf [Efd [_ [_ [He [HF Hrf]]]]]]]].
   inversion Efd; subst fd' cenv.
   assert (T : Forall2 (fun c q => nth_error S1 c = Some (cty_of (snd q))) argcells (fd_params fd)).
   { clear - T1 Hints Hlen. revert argcells T1 Hlen Hints.
@@ -1022,7 +1126,7 @@ Proof.
   { eapply Forall2_length'; eauto. }
   rewrite B.
   pose proof (safe_all R genv fuel) as [_ [IHi IHh]].
-  pose proof (fun r st' => call_safe R genv fuel IHi IHh S1 st1 fd [] Gf P argcells penv r st'
+  pose proof (fun r st' => call_safe R genv fuel IHi IHh S1 st1 fd [] Gf argcells penv r st'
                                       Hs1 He HF Hrf T B) as Hcall.
   rewrite app_nil_r in Hcall. unfold call_body in Hcall.
   destruct (match eval_items genv fuel penv st1 (fd_body fd) None with
@@ -1123,8 +1227,8 @@ Proof. vm_compute. auto. Qed.
 Example ex_run_runs : run_program 50 ex_run [] = OResult (Eval.CInt 5) [].
 Proof. vm_compute. reflexivity. Qed.
 
-(* Programs the model typechecker accepts and the evaluator gets stuck on: one per side condition
-   of eval_ready. *)
+(* The side condition is needed: a program the model typechecker accepts and the evaluator gets
+   stuck on (the real implementation segfaults on the corresponding source text). *)
 
 (* (S1)  let x = nil : the one nil cell is shared by fields of two record types
      record A { a : int; }  record B { b : int; c : int; }  record H1 { f : A; }  record H2 { f : B; }
@@ -1143,35 +1247,92 @@ Example stuck_nil_alias_accepted_and_stuck :
   eval_ready stuck_nil_alias = false /\ run_program 50 stuck_nil_alias [] = OStuck.
 Proof. vm_compute. auto. Qed.
 
-(* (S2)  comparison with nil
+(* The two former side conditions are gone; the programs that used to be stuck now satisfy the
+   hypotheses of the theorem and evaluate to what the real compiler + VM compute. *)
+
+(* (former S2)  comparison with nil
      record A { a : int; }
-     func main() -> int { let r = A(1); r == nil ? 1 : 0 }                                  *)
-Definition stuck_eq_nil : program :=
+     func main() -> int { let r = A(1); r == nil ? 1 : 0 }                          -- 0 *)
+Definition ex_eq_nil : program :=
   {| p_recs := [(1%N, [TInt])];
      p_funcs := [FDef 0 [] TInt
        [ILet 10 (ERecNew 1 [EInt 1]);
         IExpr (ECond (EBin Eq (EVar 10) (ERecNil 1)) (EInt 1) (EInt 0))] [] None];
      p_main := 0%N |}.
-Example stuck_eq_nil_accepted_and_stuck :
-  tc_program stuck_eq_nil = OK /\ main_fits stuck_eq_nil [] = true /\
-  eval_ready stuck_eq_nil = false /\ run_program 50 stuck_eq_nil [] = OStuck.
+Example ex_eq_nil_ready_and_runs :
+  tc_program ex_eq_nil = OK /\ main_fits ex_eq_nil [] = true /\
+  eval_ready ex_eq_nil = true /\ run_program 50 ex_eq_nil [] = OResult (Eval.CInt 0) [].
 Proof. vm_compute. auto. Qed.
 
-(* (S3)  two consecutive nested functions, the first calls the second (forward reference)
+(*   record A { a : int; }
      func main() -> int {
-       func f(x : int) -> int { g(x) }
-       func g(x : int) -> int { x + 1 }
-       f(1) }                                                                                *)
-Definition stuck_mutual : program :=
+       var r = A(1); r = nil; func f() -> int { 1 }; var a = [ 1 ] : int;
+       (r != nil ? 10 : 20) + (nil == r ? 1 : 2) + (nil == nil ? 100 : 200)
+         + (f == nil ? 1000 : 2000) + (nil != a ? 10000 : 20000) }                  -- 12121 *)
+Definition ex_nil_cmp : program :=
+  {| p_recs := [(1%N, [TInt])];
+     p_funcs := [FDef 0 [] TInt
+       [IVar 10 (ERecNew 1 [EInt 1]);
+        IExpr (EAssign (EVar 10) (ERecNil 1));
+        IFunc (FDef 7 [] TInt [IExpr (EInt 1)] [] None);
+        IVar 11 (EArrLit [EInt 1] TInt);
+        IExpr (EBin Add (ECond (EBin Ne (EVar 10) (ERecNil 1)) (EInt 10) (EInt 20))
+              (EBin Add (ECond (EBin Eq (ERecNil 1) (EVar 10)) (EInt 1) (EInt 2))
+              (EBin Add (ECond (EBin Eq (ERecNil 1) (ERecNil 1)) (EInt 100) (EInt 200))
+              (EBin Add (ECond (EBin Eq (EVar 7) (ERecNil 1)) (EInt 1000) (EInt 2000))
+                        (ECond (EBin Ne (ERecNil 0) (EVar 11)) (EInt 10000) (EInt 20000))))))]
+       [] None];
+     p_main := 0%N |}.
+Example ex_nil_cmp_ready_and_runs :
+  tc_program ex_nil_cmp = OK /\ main_fits ex_nil_cmp [] = true /\
+  eval_ready ex_nil_cmp = true /\ run_program 50 ex_nil_cmp [] = OResult (Eval.CInt 12121) [].
+Proof. vm_compute. auto. Qed.
+
+(* (former S3)  two adjacent nested functions, the first calls the second (forward reference)
+     func main() -> int {
+       func f(x : int) -> int { g(x) };
+       func g(x : int) -> int { x + 1 };
+       f(1) }                                                                        -- 2 *)
+Definition ex_mutual : program :=
   {| p_recs := [];
      p_funcs := [FDef 0 [] TInt
        [IFunc (FDef 20 [(30%N, false, TInt)] TInt [IExpr (ECall (EVar 21) [EVar 30])] [] None);
         IFunc (FDef 21 [(31%N, false, TInt)] TInt [IExpr (EBin Add (EVar 31) (EInt 1))] [] None);
         IExpr (ECall (EVar 20) [EInt 1])] [] None];
      p_main := 0%N |}.
-Example stuck_mutual_accepted_and_stuck :
-  tc_program stuck_mutual = OK /\ main_fits stuck_mutual [] = true /\
-  eval_ready stuck_mutual = false /\ run_program 50 stuck_mutual [] = OStuck.
+Example ex_mutual_ready_and_runs :
+  tc_program ex_mutual = OK /\ main_fits ex_mutual [] = true /\
+  eval_ready ex_mutual = true /\ run_program 50 ex_mutual [] = OResult (Eval.CInt 2) [].
+Proof. vm_compute. auto. Qed.
+
+(* mutual recursion between adjacent nested functions, and a sibling that hides a top-level
+   function of the same name:
+     func g() -> int { 1 }
+     func main() -> int {
+       func ev(n : int) -> int { n == 0 ? 1 : od(n - 1) };
+       func od(n : int) -> int { n == 0 ? 0 : ev(n - 1) };
+       func f() -> int { g() };
+       func g() -> int { 2 };
+       ev(10) * 100 + ev(7) * 10 + f() }                                            -- 102 *)
+Definition ex_even_odd : program :=
+  {| p_recs := [];
+     p_funcs := [FDef 5 [] TInt [IExpr (EInt 1)] [] None;
+       FDef 0 [] TInt
+       [IFunc (FDef 20 [(30%N, false, TInt)] TInt
+                 [IExpr (ECond (EBin Eq (EVar 30) (EInt 0)) (EInt 1)
+                               (ECall (EVar 21) [EBin Sub (EVar 30) (EInt 1)]))] [] None);
+        IFunc (FDef 21 [(30%N, false, TInt)] TInt
+                 [IExpr (ECond (EBin Eq (EVar 30) (EInt 0)) (EInt 0)
+                               (ECall (EVar 20) [EBin Sub (EVar 30) (EInt 1)]))] [] None);
+        IFunc (FDef 22 [] TInt [IExpr (ECall (EVar 5) [])] [] None);
+        IFunc (FDef 5 [] TInt [IExpr (EInt 2)] [] None);
+        IExpr (EBin Add (EBin Add (EBin Mul (ECall (EVar 20) [EInt 10]) (EInt 100))
+                                  (EBin Mul (ECall (EVar 20) [EInt 7]) (EInt 10)))
+                        (ECall (EVar 22) []))] [] None];
+     p_main := 0%N |}.
+Example ex_even_odd_ready_and_runs :
+  tc_program ex_even_odd = OK /\ main_fits ex_even_odd [] = true /\
+  eval_ready ex_even_odd = true /\ run_program 200 ex_even_odd [] = OResult (Eval.CInt 102) [].
 Proof. vm_compute. auto. Qed.
 
 (* a missing entry function is the remaining way to OStuck (main_fits excludes it) *)
